@@ -15,9 +15,42 @@ pub struct GenOpts {
     pub max_entries: usize,
 }
 
+/// Extra switches that do not change the cases `gen_case` produces when left at their
+/// defaults (C18 and the `rand` stream of C11 rely on that).
+#[derive(Clone, Copy, Debug, Default)]
+pub struct GenExt {
+    /// Only requests that `write::Dwarf::convert` + `ConvertUnit::convert` map back to the very
+    /// same request: no raw expression bytes, no DW_OP_piece sizes that overflow in bits, no
+    /// DW_OP_deref_size of the address size, constants only under attribute names whose
+    /// value class the reader does not normalise, expressions only under names the reader
+    /// recognises as expressions in every version, no sibling flag on the root, no line
+    /// sequence without rows.
+    pub convertible: bool,
+    /// lower bound for the number of units (0: the default distribution)
+    pub min_units: usize,
+    /// percentage of entries that get an additional cross-unit DebugInfoRef attribute, and
+    /// extra weight for call_ref / variable_value / implicit_pointer in expressions
+    pub xref_pct: u64,
+}
+
 const TAGS: &[u16] = &[
     0x24, 0x24, 0x2e, 0x34, 0x13, 0x0d, 0x0f, 0x16, 0x0b, 0x05, 0x1d, 0x39, 0x04, 0x28, 0x01, 0x21, 0x17, 0x3a, 0x4080, 0x4109, 0xffff, 0x7f, 0x80,
 ];
+
+fn names_for_ext(kind: &str, ext: &GenExt) -> &'static [u16] {
+    if ext.convertible {
+        match kind {
+            // DW_AT_const_value, DW_AT_discr_value, DW_AT_alignment and vendor names: the
+            // reader keeps the form's own value kind
+            "Data1" | "Data2" | "Data4" | "Data8" | "Data16" | "Sdata" | "Udata" | "ImplicitConst" => return &[0x1c, 0x16, 0x88, 0x2e11, 0x2e12, 0x2e13],
+            // not DW_AT_vtable_elem_location (copied raw by the converter) and no vendor name
+            // (a block in versions 2-3 is not recognised as an expression)
+            "Exprloc" => return &[0x02, 0x40, 0x50, 0x38, 0x2a, 0x19, 0x48],
+            _ => {}
+        }
+    }
+    names_for(kind)
+}
 
 fn names_for(kind: &str) -> &'static [u16] {
     match kind {
@@ -64,6 +97,7 @@ pub fn symvals_for(min_addr: u8) -> Vec<u64> {
 struct G<'a> {
     r: &'a mut Rng,
     opts: GenOpts,
+    ext: GenExt,
     min_addr: u8,
     nunits: usize,
     single: bool,
@@ -161,7 +195,10 @@ impl G<'_> {
     /// `uleb_ok`: entries a ULEB reference may point to (empty: none allowed)
     fn op(&mut self, enc: Enc, u: usize, uleb_ok: &[usize], any: &[usize], all: &[Vec<usize>], nested: bool, idx_max: usize) -> XOp {
         loop {
-            let k = self.r.below(30);
+            let mut k = self.r.below(30);
+            if self.ext.xref_pct > 0 && !self.single && self.r.below(100) < self.ext.xref_pct {
+                k = 22 + self.r.below(3);
+            }
             return match k {
                 0 => XOp::Simple(*self.r.pick(&[0x96u8, 0x1a, 0x9c, 0x22, 0x9f, 0x13, 0x16, 0x17, 0x97, 0x9b, 0x19, 0x1f, 0x20, 0x2e])),
                 1 => XOp::Addr(self.attr_addr(enc)),
@@ -172,9 +209,18 @@ impl G<'_> {
                 6 => XOp::Reg(self.reg()),
                 7 => XOp::Pick(*self.r.pick(&[0u8, 1, 2, 255])),
                 8 => XOp::Deref(self.r.bool()),
-                9 => XOp::DerefSize(self.r.bool(), self.r.next() as u8),
+                9 => {
+                    let (space, mut n) = (self.r.bool(), self.r.next() as u8);
+                    if self.ext.convertible && n == enc.addr {
+                        n = n.wrapping_add(1);
+                    }
+                    XOp::DerefSize(space, n)
+                }
                 10 => XOp::PlusUconst(self.r.boundary()),
-                11 => XOp::Piece(self.r.boundary()),
+                11 => {
+                    let v = self.r.boundary();
+                    XOp::Piece(if self.ext.convertible { v & 0x0fff_ffff_ffff_ffff } else { v })
+                }
                 12 => XOp::BitPiece(self.r.boundary(), self.r.boundary()),
                 13 => XOp::ImplicitValue(bytes_payload(self.r, 200)),
                 14 => XOp::Wasm(self.r.below(3) as u8, self.r.boundary() as u32),
@@ -231,6 +277,7 @@ impl G<'_> {
 
     fn xspec(&mut self, enc: Enc, u: usize, uleb_ok: &[usize], any: &[usize], all: &[Vec<usize>]) -> XSpec {
         match self.r.below(8) {
+            0 if self.ext.convertible => XSpec::Ops(vec![XOp::Simple(0x9c)]),
             0 => XSpec::Raw(bytes_payload(self.r, 200)),
             1 => XSpec::Ops(vec![]),
             _ => {
@@ -255,12 +302,19 @@ fn live_entries(us: &UnitSpec) -> Vec<usize> {
 }
 
 pub fn gen_case(r: &mut Rng, opts: GenOpts) -> CaseSpec {
-    let nunits = match r.below(10) {
+    gen_case_ext(r, opts, GenExt::default())
+}
+
+pub fn gen_case_ext(r: &mut Rng, opts: GenOpts, ext: GenExt) -> CaseSpec {
+    let mut nunits = match r.below(10) {
         0..=4 => 1,
         5..=7 => 2,
         8 => 3,
         _ => 4,
     };
+    if nunits < ext.min_units {
+        nunits = ext.min_units + r.usize(5 - ext.min_units.min(4));
+    }
     let single = nunits == 1 && r.chance(2, 5);
     let le = r.bool();
     let mut encs = vec![];
@@ -293,7 +347,7 @@ pub fn gen_case(r: &mut Rng, opts: GenOpts) -> CaseSpec {
             line_strings.push(str_payload(r));
         }
     }
-    let mut g = G { r, opts, min_addr, nunits, single, nstr, nlstr };
+    let mut g = G { r, opts, ext, min_addr, nunits, single, nstr, nlstr };
 
     // ---- pass 1: trees
     let mut units: Vec<UnitSpec> = vec![];
@@ -324,6 +378,10 @@ pub fn gen_case(r: &mut Rng, opts: GenOpts) -> CaseSpec {
             let reserve_at = if g.r.chance(1, 5) { Some(1 + g.r.usize(k)) } else { None };
             entries.push(EntrySpec { parent, tag, sibling: g.r.chance(1, 2), reserve_at, deleted: false, attrs: vec![] });
         }
+        if ext.convertible {
+            // the converter does not carry the root's DW_AT_sibling over
+            entries[0].sibling = false;
+        }
         let phantoms = (0..g.r.usize(3)).map(|_| 1 + g.r.usize(n + 1)).collect();
         units.push(UnitSpec { enc, entries, phantoms, rlists: vec![], llists: vec![], line: None });
     }
@@ -352,7 +410,11 @@ pub fn gen_case(r: &mut Rng, opts: GenOpts) -> CaseSpec {
             let mut seqs = vec![];
             for _ in 0..nseq {
                 let start = g.safe_addr(enc);
-                let nrows = g.r.usize(5);
+                let mut nrows = g.r.usize(5);
+                if ext.convertible && nrows == 0 {
+                    // the converter drops the start address of a sequence without rows
+                    nrows = 1;
+                }
                 let mut off = 0u64;
                 let mut rows = vec![];
                 for _ in 0..nrows {
@@ -443,7 +505,7 @@ pub fn gen_case(r: &mut Rng, opts: GenOpts) -> CaseSpec {
             while attrs.len() < nattr && tries < 80 {
                 tries += 1;
                 let kind = *g.r.pick(ALL_KINDS);
-                let names = names_for(kind);
+                let names = names_for_ext(kind, &ext);
                 let name = *g.r.pick(names);
                 if attrs.iter().any(|a| a.name == name) || name == 0x01 {
                     continue;
@@ -527,6 +589,10 @@ pub fn gen_case(r: &mut Rng, opts: GenOpts) -> CaseSpec {
                     "Inline" => ValSpec::Inline(g.r.boundary() as u8),
                     "Ordering" => ValSpec::Ordering(g.r.boundary() as u8),
                     "FileIndex" => {
+                        if ext.convertible && nfiles == 0 && enc.version >= 5 {
+                            // index 0 names a file in version 5; the converter wants it to exist
+                            continue;
+                        }
                         if nfiles == 0 || g.r.chance(1, 6) {
                             ValSpec::FileIndex(None)
                         } else {
@@ -542,6 +608,14 @@ pub fn gen_case(r: &mut Rng, opts: GenOpts) -> CaseSpec {
                     }
                 }
                 attrs.push(AttrSpec { name, val });
+            }
+            if ext.xref_pct > 0 && nunits > 1 && mypos.is_some() && g.r.below(100) < ext.xref_pct {
+                // one more reference into another unit (either direction)
+                let uu = (u + 1 + g.r.usize(nunits - 1)) % nunits;
+                if let Some(name) = names_for("DebugInfoRef").iter().copied().find(|n| !attrs.iter().any(|a| a.name == *n)) {
+                    let p = g.r.usize(attrs.len() + 1);
+                    attrs.insert(p, AttrSpec { name, val: ValSpec::DebugInfoRef(uu, *g.r.pick(&all_live[uu])) });
+                }
             }
             let idpos = g.r.usize(attrs.len() + 1);
             attrs.insert(idpos, AttrSpec { name: ID_AT, val: ValSpec::Udata(ident(u, k)) });
